@@ -282,8 +282,8 @@ func (tb TemporalBound) String() string {
 	switch tb.Type {
 	case TimestampBound:
 		t := time.Unix(0, tb.Timestamp).UTC()
-		// Use ISO 8601 format
-		return t.Format("2006-01-02T15:04:05Z")
+		// Use ISO 8601 format; a sub-second part is printed when it is not zero.
+		return t.Format("2006-01-02T15:04:05.999999999Z")
 	case VariableBound:
 		return tb.Variable.String()
 	case NegativeInfinityBound, PositiveInfinityBound:
